@@ -793,6 +793,12 @@ pub fn all_specs(iters: u32, thorough: bool) -> Vec<Box<dyn AnySpec>> {
         spec!(v, "ant_system", format!("4-cities-b ants={} alpha={} beta={} evaporation={}", ants, a, b, evap), || TspP::line(&[5.0, 0.125, 3.0], Instr::new()), iters, rule(), move |c| aco::ant_system(aco::ASParameters::verif_new(ants, a, b, 1.0, evap, 1.0), c));
         spec!(v, "max_min_ant_system", format!("4-cities-b ants={} alpha={} beta={} evaporation={} bounds=0.5..2", ants, a, b, evap), || TspP::line(&[5.0, 0.125, 3.0], Instr::new()), iters, rule(), move |c| aco::max_min_ant_system(aco::MMASParameters::verif_new(ants, a, b, 1.0, evap, 2.0, 0.5), c));
     }
+    // trails that start at exactly zero, and complete evaporation with several ants
+    for (ants, a, b, dp, evap) in [(2usize, 1.0, 1.0, 0.0, 0.5), (3, 1.0, 2.0, 1.0, 1.0)] {
+        let rule = move || -> (Box<dyn Fn(usize, usize) -> bool + Send + Sync>, String) { (Box::new(move |t, n| if t == 0 { n == 0 } else { n == ants + 1 }), format!("0 before the first pass, then {}", ants + 1)) };
+        spec!(v, "ant_system", format!("4-cities ants={} alpha={} beta={} default_pheromones={} evaporation={}", ants, a, b, dp, evap), move || tsp_problem(false), iters + 2, rule(), move |c| aco::ant_system(aco::ASParameters::verif_new(ants, a, b, dp, evap, 1.0), c));
+        spec!(v, "max_min_ant_system", format!("4-cities ants={} alpha={} beta={} default_pheromones={} evaporation={} bounds=0..2", ants, a, b, dp, evap), move || tsp_problem(false), iters + 2, rule(), move |c| aco::max_min_ant_system(aco::MMASParameters::verif_new(ants, a, b, dp, evap, 2.0, 0.0), c));
+    }
     for unequal in tsps {
         let k = if unequal { "5-cities-unequal" } else { "4-cities" };
         let ncity: u32 = if unequal { 5 } else { 4 };
